@@ -165,7 +165,8 @@ static Verdict exec_badcall(const Case &c) {
 static Case gen_C11(const GenCtx &ctx) {
   Case c;
   c.sets("prop", "C11");
-  if (g::coin(1, 12)) {
+  // (the wrapper family forks and handles SIGABRT itself: not inside the libFuzzer process, where the catalogue part runs)
+  if (g::coin(1, 12) && !g::bytes()) {
     int i = g::rng(0, NBAD - 1);
     c.sets("op", "wrapper_bad_dims").sets("which", BAD[i].name);
     c.set("a", g::dim(150, {64, 128})).set("b", g::dim(150, {64, 128})).set("c", g::dim(150, {64, 128}));
